@@ -720,7 +720,8 @@ class Driver:
                     int(got[1:]), self.cfg["encoding"], self.cfg["pad"], n.spec["x"]):
                 self.flag("renders-wrong-version", "multi-process round (%d nodes, zone %s): %s rendered %r (VTAG %s), admissible versions %s"
                           % (nn, zone, n.name, out["text"][:50], got, sorted(ok_versions)),
-                          "stale-bytecode" if self.stale_pyc_possible(self.read_mod()) else None)
+                          "stale-bytecode" if (self.stale_pyc_possible(self.read_mod()) or (
+                              self.cfg["write_bytecode"] and any(len(v) > 1 for v in self.generations.values()))) else None)
         self.containment(nodes, "multi-process round")
         post = self.classify(self.read_mod())
         if post is not None and not post["complete"] and not bad:
